@@ -69,6 +69,7 @@ type gateWriter struct {
 	n       int
 	reached chan struct{}
 	release chan struct{}
+	failErr error // what the parked write returns once released (nil: it succeeds)
 }
 
 func (g *gateWriter) Write(p []byte) (int, error) {
@@ -83,6 +84,9 @@ func (g *gateWriter) Write(p []byte) (int, error) {
 		close(g.reached)
 		<-g.release
 		census.Bump()
+		if g.failErr != nil {
+			return 0, g.failErr
+		}
 	}
 	return len(p), nil
 }
@@ -1336,6 +1340,66 @@ func emitsBeforeReturn(id string, maxbuf int, sizes []int) runner.Result {
 	return res
 }
 
+// terminalCallInTransport: the write of a terminal call (Close, CloseSend, SendError, SendCancel) is
+// inside the io.Writer when the stream is cancelled, and that write then fails, as it does when a hard
+// cancel closes the transport under it. The call was in progress when the cancel happened: it reports
+// the cancel's error, by whichever of the writer's two ways (a frame written through at once because
+// the buffer is small or full, or the flush) its bytes reached the transport.
+func terminalCallInTransport(id string, op string, how string) runner.Result {
+	gw := &gateWriter{parkAt: 0, reached: make(chan struct{}), release: make(chan struct{}), failErr: io.ErrClosedPipe}
+	size, manual := 1, false
+	text := "handler failed"
+	switch how {
+	case "default-writer-long-error-text":
+		size, text = 4096, strings.Repeat("e", 5000)
+	case "default-writer-flush":
+		size = 4096
+	case "manual-flush-buffered-message":
+		size, manual = 64, true
+	}
+	wr := drpcwire.NewWriter(gw, size)
+	st := drpcstream.NewWithOptions(context.Background(), streamID, wr, drpcstream.Options{ManualFlush: manual})
+	if manual {
+		d := make([]byte, 40)
+		if err := st.MsgSend(&d, payload.Enc{}); err != nil {
+			return runner.Inconcl(id, "setup send failed")
+		}
+	}
+	call := rig.Go(op, func() (interface{}, error) {
+		switch op {
+		case "Close":
+			return nil, st.Close()
+		case "CloseSend":
+			return nil, st.CloseSend()
+		case "SendError":
+			return nil, st.SendError(errors.New(text))
+		}
+		_, err := st.SendCancel(errors.New("soft"))
+		return nil, err
+	})
+	where := fmt.Sprintf("[%s whose write is inside the io.Writer (%s), Cancel, the write then fails]", op, how)
+	if s, _ := census.QuiesceOr(gw.reached, rig.Watchdog); s != "ready" {
+		close(gw.release)
+		return runner.Inconcl(id, where+": the call's write did not reach the io.Writer")
+	}
+	canc := rig.Go("Cancel", func() (interface{}, error) { st.Cancel(errCancel); return nil, nil })
+	census.Quiesce(rig.Watchdog)
+	close(gw.release)
+	census.Quiesce(rig.Watchdog)
+	var fails []string
+	if !call.Returned() || !canc.Returned() {
+		fails = append(fails, fmt.Sprintf("%s: at quiescence the call returned=%v, Cancel returned=%v", where, call.Returned(), canc.Returned()))
+	} else if !errors.Is(call.Err, errCancel) {
+		fails = append(fails, fmt.Sprintf("%s: the call returned %v, want the error given to Cancel", where, call.Err))
+	}
+	if len(fails) > 0 {
+		return runner.Violation(id, "state-machine:terminal-call-in-transport-does-not-report-the-cancel-error", strings.Join(fails, "\n"))
+	}
+	res := runner.Hold(id, where, true)
+	res.Events = 3
+	return res
+}
+
 // lockedBuffer is a bytes.Buffer safe for one writer and a reader of Len.
 type lockedBuffer struct {
 	mu sync.Mutex
@@ -1531,6 +1595,16 @@ func gen(tier string, seed uint64) []runner.Scenario {
 			how, end := how, end
 			id := fmt.Sprintf("shared-writer/%s/%s", how, end)
 			out = append(out, runner.Scenario{ID: id, Run: func() runner.Result { return sharedWriter(id, how, end) }})
+		}
+	}
+	for _, op := range []string{"Close", "CloseSend", "SendError", "SendCancel"} {
+		for _, how := range []string{"writer-of-1-byte", "default-writer-flush", "default-writer-long-error-text", "manual-flush-buffered-message"} {
+			if how == "default-writer-long-error-text" && op != "SendError" {
+				continue
+			}
+			op, how := op, how
+			id := fmt.Sprintf("terminal-call-in-transport/%s/%s", op, how)
+			out = append(out, runner.Scenario{ID: id, Run: func() runner.Result { return terminalCallInTransport(id, op, how) }})
 		}
 	}
 	for _, maxbuf := range []int{0, 1, 16, 64, 1024, 1 << 20} {
